@@ -182,6 +182,23 @@ def run_case(case):
             if rng.integers(0, 2):
                 B.sg_name = None
             counters["unnamed_subgraph_histories"] = counters.get("unnamed_subgraph_histories", 0) + 1
+        if case["seed"] % 3 == 0 and kind not in ("limits",) and A.ops:
+            # an interface list that names the same tensor twice (legal, the compiler only warns) next to other entries: the order of the entries in the output
+            # model must not come from anything that depends on the history of the process (object identities)
+            extra_out = [t for o_ in A.ops for t in o_.outputs if t not in A.outputs][:2]
+            outs_ = list(A.outputs) + extra_out
+            A.outputs = outs_[:1] + outs_[1:2] + outs_[:1] + outs_[1:] + outs_[-1:]
+            counters["repeated_interface_entries"] = counters.get("repeated_interface_entries", 0) + 1
+        if case["seed"] % 4 == 1 and kind not in ("limits",):
+            # tensor names are labels, not keys: several tensors of one model may carry the same name (here: every feature map that is not an interface tensor
+            # of model A is called "x").  Whatever order the writer gives equally named tensors must not depend on the history of the process.
+            if kind in ("AA", "AB", "entry-mix", "long", "acc-mix"):
+                A = netgen.make("cpu-mix", case["seed"])  # several feature maps stay visible in the output model (CPU / Ethos-U boundaries)
+            iface = set(A.inputs) | set(A.outputs)
+            for t_ in A.tensors:
+                if t_.data is None and t_.name not in iface:
+                    t_.wire_name = "x"
+            counters["equally_named_tensors"] = counters.get("equally_named_tensors", 0) + 1
         ma, mb = write_model(d, "a", A), write_model(d, "b", B)
         cfgA = cfggen.rand_cfg(rng)
         cfgB = dict(cfgA) if kind != "acc-mix" else cfggen.rand_cfg(rng)
